@@ -47,6 +47,32 @@ def coveredFrom : Nat → List (Nat × Nat) → Ranges
 def coveredOf (blanks : List (Nat × Nat)) : Ranges :=
   if blanks.isEmpty then [(0, 0)] else coveredFrom 0 blanks
 
+/-- `compact_start` of the range at position `pos` (1 + lengths of the ranges before it);
+`compact_end` of range `pos − 1` is `cstartAt pos − 1` -/
+def cstartAt (rs : Ranges) (pos : Nat) : Nat := 1 + ((rs.take pos).map rangeLen).sum
+
+/-- the `Err(pos)` of `binary_search_by` for a value outside the covered space: the number of ranges
+entirely below it (contract of `std`) -/
+def errPos (rs : Ranges) (v : Nat) : Nat := rs.countP (fun r => decide (r.2 < v))
+
+/-- mirrors: CompactSpaceDecompressor::get_row_ids_for_value_range, range conversion: `none` = early
+return (empty query range, or both ends fall into the same gap); a start in a gap moves up to the
+next range's `compact_start`, an end in a gap moves down to the previous range's `compact_end` -/
+def compactRange (rs : Ranges) (lo hi : Nat) : Option (Nat × Nat) :=
+  if lo > hi then none else
+  match toCompact rs lo, toCompact rs hi with
+  | none, none => if errPos rs lo = errPos rs hi then none else some (cstartAt rs (errPos rs lo), cstartAt rs (errPos rs hi) - 1)
+  | some a, none => some (a, cstartAt rs (errPos rs hi) - 1)
+  | none, some b => some (cstartAt rs (errPos rs lo), b)
+  | some a, some b => some (a, b)
+
+/-- positions `s..e` whose compact value lies in the converted range
+(mirrors: get_positions_for_compact_value_range → BitUnpacker::get_ids_for_value_range) -/
+def compactRangeRows (rs : Ranges) (compacts : List Nat) (lo hi s e : Nat) : List Nat :=
+  match compactRange rs lo hi with
+  | none => []
+  | some r => (List.range' s (min e compacts.length - s)).filter (fun i => decide (r.1 ≤ compacts.getD i 0) && decide (compacts.getD i 0 ≤ r.2))
+
 /-! ## byte layout -/
 
 /-- mirrors: common/src/vint.rs::VIntU128::deserialize -/
@@ -68,6 +94,31 @@ def rangesDec : Nat → Nat → Bytes → Option (Ranges × Bytes)
     let end' := start + d2
     let (rest, bs) ← rangesDec n end' bs
     some ((start, end') :: rest, bs)
+
+/-- mirrors: common/src/vint.rs::serialize_vint_u128 (same byte format as VInt; 19 bytes hold 128 bits) -/
+def vint128Enc (n : Nat) : Bytes := vintEncAux 18 n
+
+/-- mirrors: CompactSpace::serialize — range bounds delta-coded against the previous bound -/
+def rangesEnc : Nat → Ranges → Bytes
+  | _, [] => []
+  | prev, r :: rs => vint128Enc (r.1 - prev) ++ vint128Enc (r.2 - r.1) ++ rangesEnc r.2 rs
+
+/-- mirrors: IPCodecParams::serialize — u64 flags (0), VIntU128 min, max, num_vals, u8 num_bits, the
+compact space -/
+def ipFooter (mn mx nv nb : Nat) (rs : Ranges) : Bytes :=
+  leBytes 8 0 ++ vint128Enc mn ++ vint128Enc mx ++ vint128Enc nv ++ [nb] ++ vintEnc rs.length ++ rangesEnc 0 rs
+
+/-- the codec for a given compact space: values → compact values, bit-packed with
+`compute_num_bits(amplitude)` (mirrors: CompactSpaceCompressor::compress_into, payload only) -/
+def compactPayload (rs : Ranges) (vals : List Nat) : Bytes :=
+  pack (computeNumBits (amplitude rs)) (vals.map (fun v => (toCompact rs v).getD 0))
+
+/-- mirrors: u128_based/mod.rs::serialize_column_values_u128 for a given compact space: header
+(VInt num_vals, codec 1), bit-packed compact values, footer, footer length as u32 LE -/
+def ipColumnEnc (rs : Ranges) (vals : List Nat) : Bytes :=
+  let footer := ipFooter (vals.foldl Nat.min (vals.headD 0)) (vals.foldl Nat.max (vals.headD 0)) vals.length
+    (computeNumBits (amplitude rs)) rs
+  vintEnc vals.length ++ [1] ++ (compactPayload rs vals ++ footer ++ leBytes 4 footer.length)
 
 structure IpColumn where
   numVals : Nat
@@ -105,10 +156,5 @@ def openU128Column (bytes : Bytes) : Option IpColumn := do
 
 /-- mirrors: CompactSpaceDecompressor::get -/
 def IpColumn.get (c : IpColumn) (i : Nat) : Nat := fromCompact c.ranges (unpackGet c.numBits i c.data)
-
-/-- the codec for a given compact space: values → compact values, bit-packed with
-`compute_num_bits(amplitude)` (mirrors: CompactSpaceCompressor::compress_into, payload only) -/
-def compactPayload (rs : Ranges) (vals : List Nat) : Bytes :=
-  pack (computeNumBits (amplitude rs)) (vals.map (fun v => (toCompact rs v).getD 0))
 
 end TantivyModel.Columnar
